@@ -3,9 +3,9 @@ import OdakModel.Heap
 /-!
 # Soundness of the may-mutate analysis of `OdakModel/Heap.lean`
 
-* `mayMutate_sound` / `clean_sound` : theorem A (summary semantics `Exec σ`)
-* `mayMutate_sound_real` / `clean_sound_real` : theorem B (`ExecReal σ tbl d`, any depth `d`,
-  for `σ` a post-fixpoint of `tbl`), `isPostFixpoint_sound` for the Boolean checker
+* `mayMutate_sound` / `clean_sound` : theorem A (summary semantics `Exec σ ρ`)
+* `mayMutate_sound_real` / `clean_sound_real` : theorem B (`ExecReal σ ρ tbl d`, any depth `d`,
+  for `(σ, ρ)` a post-fixpoint of `tbl`), `isPostFixpoint_sound` for the Boolean checker
 * sanity examples at the end (by `decide`)
 -/
 
@@ -168,19 +168,19 @@ theorem loopFix_idem (f : AState → AState) (n m : Nat) (a : AState) :
 
 /-! ## Transfer equations -/
 
-theorem transfer_nil (σ : FnId → List Nat) (k : Nat) (a : AState) : transfer σ k [] a = a := by
+theorem transfer_nil (σ ρ : FnId → List Nat) (k : Nat) (a : AState) : transfer σ ρ k [] a = a := by
   simp [transfer]
 
-theorem transfer_cons (σ : FnId → List Nat) (k : Nat) (i : Instr) (is : List Instr) (a : AState) :
-    transfer σ k (i :: is) a = transfer σ k is (transferI σ k i a) := by
+theorem transfer_cons (σ ρ : FnId → List Nat) (k : Nat) (i : Instr) (is : List Instr) (a : AState) :
+    transfer σ ρ k (i :: is) a = transfer σ ρ k is (transferI σ ρ k i a) := by
   simp [transfer]
 
-theorem transferI_branch (σ : FnId → List Nat) (k : Nat) (p q : Prog) (a : AState) :
-    transferI σ k (.branch p q) a = (transfer σ k p a).join (transfer σ k q a) := by
+theorem transferI_branch (σ ρ : FnId → List Nat) (k : Nat) (p q : Prog) (a : AState) :
+    transferI σ ρ k (.branch p q) a = (transfer σ ρ k p a).join (transfer σ ρ k q a) := by
   simp [transferI]
 
-theorem transferI_loop (σ : FnId → List Nat) (k : Nat) (p : Prog) (a : AState) :
-    transferI σ k (.loop p) a = loopFix (transfer σ k p) (loopFuel k p) a := by
+theorem transferI_loop (σ ρ : FnId → List Nat) (k : Nat) (p : Prog) (a : AState) :
+    transferI σ ρ k (.loop p) a = loopFix (transfer σ ρ k p) (loopFuel k p) a := by
   simp [transferI]
 
 /-! ## The invariant -/
@@ -237,18 +237,19 @@ theorem Inv.get_var {a : AState} {s : State} (h : Inv k init n0 h0 a s) (y : Var
 
 /-- Generic soundness of the abstract call transfer: any state change that (1) does not decrease the
 allocation pointer, (2) modifies entry-time objects only through arguments at positions in `σ f`,
-(3) rebinds only `ret`, to a new object or to the object of an argument. -/
-theorem Inv.call {a : AState} {s s1 : State} (σ : FnId → List Nat) (f : FnId) (args : List Var)
+(3) rebinds only `ret`, to a new object or to the object of an argument at a position in `ρ f`. -/
+theorem Inv.call {a : AState} {s s1 : State} (σ ρ : FnId → List Nat) (f : FnId) (args : List Var)
     (ret : Var) (h : Inv k init n0 h0 a s)
     (hn : s.next ≤ s1.next)
     (hh : ∀ o, o < s.next → s1.heap o ≠ s.heap o →
       ∃ i, i ∈ σ f ∧ ∃ v, args[i]? = some v ∧ s.env v = some o)
     (r : Option Obj) (he : s1.env = upd s.env ret r)
-    (hr : ∀ o, r = some o → s.next ≤ o ∨ ∃ v, v ∈ args ∧ s.env v = some o) :
-    Inv k init n0 h0 (transferI σ k (.call f args ret) a) s1 := by
+    (hr : ∀ o, r = some o →
+      s.next ≤ o ∨ ∃ i, i ∈ ρ f ∧ ∃ v, args[i]? = some v ∧ s.env v = some o) :
+    Inv k init n0 h0 (transferI σ ρ k (.call f args ret) a) s1 := by
   have hnl := h.next_le
   -- first the mutation part
-  have h1 : Inv k init n0 h0 (a.addMut (callMut (σ f) args a)) ⟨s.env, s1.heap, s1.next⟩ := by
+  have h1 : Inv k init n0 h0 (a.addMut (argPts (σ f) args a)) ⟨s.env, s1.heap, s1.next⟩ := by
     refine ⟨Nat.le_trans hnl hn, h.pts, fun o ho hne => ?_⟩
     by_cases hc : s1.heap o = s.heap o
     · obtain ⟨p, hp, hm, hi⟩ := h.heap o ho (by rw [← hc]; exact hne)
@@ -259,11 +260,11 @@ theorem Inv.call {a : AState} {s s1 : State} (σ : FnId → List Nat) (f : FnId)
       rcases hm with hm | hm
       · exact Or.inl (Or.inl hm)
       · refine Or.inr ?_
-        simp only [callMut, List.mem_flatMap]
+        simp only [argPts, List.mem_flatMap]
         exact ⟨i, hi, by rw [hv]; exact hm⟩
   -- then the rebinding of `ret`
-  have h2 := h1.set_var ret (union [] (args.flatMap a.get)) r (fun o hro ho => by
-    rcases hr o hro with hge | ⟨v, hv, hev⟩
+  have h2 := h1.set_var ret (union [] (argPts (ρ f) args a)) r (fun o hro ho => by
+    rcases hr o hro with hge | ⟨i, hi, v, hv, hev⟩
     · exact absurd (Nat.lt_of_lt_of_le ho hnl) (Nat.not_lt.2 hge)
     · obtain ⟨p, hp, hm, hip⟩ := h.get_var v o hev ho
       refine ⟨p, hp, ?_, hip⟩
@@ -271,16 +272,18 @@ theorem Inv.call {a : AState} {s s1 : State} (σ : FnId → List Nat) (f : FnId)
       · exact Or.inl hm
       · refine Or.inr ?_
         rw [mem_union]
-        exact Or.inr (List.mem_flatMap.2 ⟨v, hv, hm⟩))
+        refine Or.inr ?_
+        simp only [argPts, List.mem_flatMap]
+        exact ⟨i, hi, by rw [hv]; exact hm⟩)
   have hs1 : s1 = ⟨upd s.env ret r, s1.heap, s1.next⟩ := by
     cases s1; simp only at he; subst he; rfl
   rw [hs1]
   simpa [transferI] using h2
 
 /-- Soundness of the transfer function for one non-compound step. -/
-theorem step_sound {σ : FnId → List Nat} {i : Instr} {s s1 : State} {a : AState}
-    (hs : Step σ i s s1) (h : Inv k init n0 h0 a s) :
-    Inv k init n0 h0 (transferI σ k i a) s1 := by
+theorem step_sound {σ ρ : FnId → List Nat} {i : Instr} {s s1 : State} {a : AState}
+    (hs : Step σ ρ i s s1) (h : Inv k init n0 h0 a s) :
+    Inv k init n0 h0 (transferI σ ρ k i a) s1 := by
   cases hs with
   | fresh x =>
       have h' : Inv k init n0 h0 a ⟨s.env, s.heap, s.next + 1⟩ :=
@@ -336,23 +339,23 @@ theorem step_sound {σ : FnId → List Nat} {i : Instr} {s s1 : State} {a : ASta
           exact ⟨p, hp, (AState.mayMut_addMut _ _ _).2 (Or.inl hm), hi⟩⟩
       simpa [transferI] using this
   | callFresh f args ret _ h' hc =>
-      exact h.call σ f args ret (Nat.le_succ _) (fun o _ hne => hc o hne) (some s.next) rfl
+      exact h.call σ ρ f args ret (Nat.le_succ _) (fun o _ hne => hc o hne) (some s.next) rfl
         (fun o ho => by cases ho; exact Or.inl (Nat.le_refl _))
-  | callArg f args ret _ h' v hc hv =>
-      exact h.call σ f args ret (Nat.le_refl _) (fun o _ hne => hc o hne) (s.env v) rfl
-        (fun o ho => Or.inr ⟨v, hv, ho⟩)
+  | callArg f args ret _ h' i v hc hi hv =>
+      exact h.call σ ρ f args ret (Nat.le_refl _) (fun o _ hne => hc o hne) (s.env v) rfl
+        (fun o ho => Or.inr ⟨i, hi, v, hv, ho⟩)
 
 /-- Entering a loop: the stabilised abstract state is above the entry state. -/
-theorem Inv.loop_entry {σ : FnId → List Nat} {a : AState} {s : State} (p : Prog)
-    (h : Inv k init n0 h0 a s) : Inv k init n0 h0 (transferI σ k (.loop p) a) s := by
+theorem Inv.loop_entry {σ ρ : FnId → List Nat} {a : AState} {s : State} (p : Prog)
+    (h : Inv k init n0 h0 a s) : Inv k init n0 h0 (transferI σ ρ k (.loop p) a) s := by
   rw [transferI_loop]; exact h.mono (le_loopFix _ _ _)
 
 /-! ## Theorem A: summary semantics -/
 
 /-- The invariant is preserved by `Exec` along the abstract transfer. -/
-theorem exec_inv {σ : FnId → List Nat} {prog : Prog} {s s' : State} (hex : Exec σ prog s s') :
+theorem exec_inv {σ ρ : FnId → List Nat} {prog : Prog} {s s' : State} (hex : Exec σ ρ prog s s') :
     ∀ (k : Nat) (init : Nat → Option Obj) (n0 : Obj) (h0 : Obj → Nat) (a : AState),
-      Inv k init n0 h0 a s → Inv k init n0 h0 (transfer σ k prog a) s' := by
+      Inv k init n0 h0 a s → Inv k init n0 h0 (transfer σ ρ k prog a) s' := by
   induction hex with
   | nil s => intro k init n0 h0 a h; rw [transfer_nil]; exact h
   | step hs _ ih =>
@@ -369,7 +372,7 @@ theorem exec_inv {σ : FnId → List Nat} {prog : Prog} {s s' : State} (hex : Ex
       exact ih k init n0 h0 _ (h.loop_entry _)
   | @loopStep p rest s s1 s' _ _ ih1 ih2 =>
       intro k init n0 h0 a h
-      have hA : Inv k init n0 h0 (transferI σ k (.loop p) a) s := h.loop_entry _
+      have hA : Inv k init n0 h0 (transferI σ ρ k (.loop p) a) s := h.loop_entry _
       rw [transferI_loop] at hA
       have hB := (ih1 k init n0 h0 _ hA).mono (AState.leb_sound (loopFix_stable _ _ _))
       have hC := ih2 k init n0 h0 _ hB
@@ -378,9 +381,14 @@ theorem exec_inv {σ : FnId → List Nat} {prog : Prog} {s s' : State} (hex : Ex
       exact hC
 
 /-- membership in `mayMutate` -/
-theorem mem_mayMutate (σ : FnId → List Nat) (k : Nat) (prog : Prog) (p : Nat) :
-    p ∈ mayMutate σ k prog ↔ p < k ∧ (analyze σ k prog).MayMut p := by
+theorem mem_mayMutate (σ ρ : FnId → List Nat) (k : Nat) (prog : Prog) (p : Nat) :
+    p ∈ mayMutate σ ρ k prog ↔ p < k ∧ (analyze σ ρ k prog).MayMut p := by
   simp [mayMutate, AState.MayMut]
+
+/-- membership in `mayReturn` -/
+theorem mem_mayReturn (σ ρ : FnId → List Nat) (k : Nat) (rv : Var) (prog : Prog) (p : Nat) :
+    p ∈ mayReturn σ ρ k rv prog ↔ p < k ∧ (analyze σ ρ k prog).MayPt rv p := by
+  simp [mayReturn, AState.MayPt, AState.mem_get]
 
 /-- the invariant holds at entry of a function whose parameter `p < k` is bound to `init p` -/
 theorem Inv.entry (k : Nat) (init : Nat → Option Obj) (s : State)
@@ -394,17 +402,17 @@ theorem Inv.entry (k : Nat) (init : Nat → Option Obj) (s : State)
 
 /-- General form of theorem A (`init : Nat → Option Obj`, parameters may be unbound, and variables
 `≥ k` may initially be bound to anything that is not an entry object). -/
-theorem mayMutate_sound_gen (σ : FnId → List Nat) (k : Nat) (init : Nat → Option Obj) (prog : Prog)
+theorem mayMutate_sound_gen (σ ρ : FnId → List Nat) (k : Nat) (init : Nat → Option Obj) (prog : Prog)
     (s₀ s₁ : State)
     (henv : ∀ x o, s₀.env x = some o → o < s₀.next → x < k ∧ init x = some o)
-    (hex : Exec σ prog s₀ s₁) (o : Obj) (ho : o < s₀.next)
-    (hclean : ∀ p, p < k → init p = some o → p ∉ mayMutate σ k prog) :
+    (hex : Exec σ ρ prog s₀ s₁) (o : Obj) (ho : o < s₀.next)
+    (hclean : ∀ p, p < k → init p = some o → p ∉ mayMutate σ ρ k prog) :
     s₁.heap o = s₀.heap o := by
   have hI := exec_inv hex k init s₀.next s₀.heap _ (Inv.entry k init s₀ henv)
   apply Classical.byContradiction
   intro hne
   obtain ⟨p, hp, hm, hi⟩ := hI.heap o ho hne
-  exact hclean p hp hi ((mem_mayMutate σ k prog p).2 ⟨hp, hm⟩)
+  exact hclean p hp hi ((mem_mayMutate σ ρ k prog p).2 ⟨hp, hm⟩)
 
 /-- environment binding parameter `p < k` to `init p` and nothing else -/
 def initEnv (k : Nat) (init : Fin k → Obj) : Var → Option Obj :=
@@ -421,12 +429,12 @@ theorem initEnv_spec {k : Nat} {init : Fin k → Obj} {x : Var} {o : Obj}
 parameter `p < k` to `init p` (not necessarily distinct objects) and nothing else.  Every object `o`
 existing at entry such that no parameter bound to `o` is reported by `mayMutate` has the same
 contents at exit. -/
-theorem mayMutate_sound (σ : FnId → List Nat) (k : Nat) (init : Fin k → Obj) (prog : Prog)
+theorem mayMutate_sound (σ ρ : FnId → List Nat) (k : Nat) (init : Fin k → Obj) (prog : Prog)
     (s₀ s₁ : State) (henv : s₀.env = initEnv k init)
-    (hex : Exec σ prog s₀ s₁) (o : Obj) (ho : o < s₀.next)
-    (hclean : ∀ p : Fin k, init p = o → p.val ∉ mayMutate σ k prog) :
+    (hex : Exec σ ρ prog s₀ s₁) (o : Obj) (ho : o < s₀.next)
+    (hclean : ∀ p : Fin k, init p = o → p.val ∉ mayMutate σ ρ k prog) :
     s₁.heap o = s₀.heap o := by
-  refine mayMutate_sound_gen σ k (fun x => if h : x < k then some (init ⟨x, h⟩) else none) prog
+  refine mayMutate_sound_gen σ ρ k (fun x => if h : x < k then some (init ⟨x, h⟩) else none) prog
     s₀ s₁ ?_ hex o ho ?_
   · intro x o' hx _
     rw [henv] at hx
@@ -437,28 +445,28 @@ theorem mayMutate_sound (σ : FnId → List Nat) (k : Nat) (init : Fin k → Obj
     exact hclean ⟨p, hp⟩ hi
 
 /-- **Corollary.**  If `mayMutate` reports nothing, every object existing at entry is unchanged. -/
-theorem clean_sound (σ : FnId → List Nat) (k : Nat) (init : Fin k → Obj) (prog : Prog)
+theorem clean_sound (σ ρ : FnId → List Nat) (k : Nat) (init : Fin k → Obj) (prog : Prog)
     (s₀ s₁ : State) (henv : s₀.env = initEnv k init)
-    (hex : Exec σ prog s₀ s₁) (hclean : mayMutate σ k prog = []) :
+    (hex : Exec σ ρ prog s₀ s₁) (hclean : mayMutate σ ρ k prog = []) :
     ∀ o, o < s₀.next → s₁.heap o = s₀.heap o := by
   intro o ho
-  exact mayMutate_sound σ k init prog s₀ s₁ henv hex o ho (fun p _ => by simp [hclean])
+  exact mayMutate_sound σ ρ k init prog s₀ s₁ henv hex o ho (fun p _ => by simp [hclean])
 
 /-! ## Theorem B: real calls, bounded depth -/
 
-/-- The invariant is preserved by `ExecReal` along the abstract transfer when `σ` is a
+/-- The invariant is preserved by `ExecReal` along the abstract transfer when `(σ, ρ)` is a
 post-fixpoint for the table. -/
-theorem execReal_inv {σ : FnId → List Nat} {tbl : FnId → Option (Nat × Prog)}
-    (hpf : PostFixpoint σ tbl) {d : Nat} {prog : Prog} {s s' : State}
-    (hex : ExecReal σ tbl d prog s s') :
+theorem execReal_inv {σ ρ : FnId → List Nat} {tbl : FnId → Option (Nat × Var × Prog)}
+    (hpf : PostFixpoint σ ρ tbl) {d : Nat} {prog : Prog} {s s' : State}
+    (hex : ExecReal σ ρ tbl d prog s s') :
     ∀ (k : Nat) (init : Nat → Option Obj) (n0 : Obj) (h0 : Obj → Nat) (a : AState),
-      Inv k init n0 h0 a s → Inv k init n0 h0 (transfer σ k prog a) s' := by
+      Inv k init n0 h0 a s → Inv k init n0 h0 (transfer σ ρ k prog a) s' := by
   induction hex with
   | nil d s => intro k init n0 h0 a h; rw [transfer_nil]; exact h
   | step _ hs _ ih =>
       intro k init n0 h0 a h; rw [transfer_cons]
       exact ih k init n0 h0 _ (step_sound hs h)
-  | @callReal d f args ret kf body rest s t s1 s' htbl _ hret _ ihb ihr =>
+  | @callReal d f args ret kf rv body rest s t s1 s' htbl _ hret _ ihb ihr =>
       intro k init n0 h0 a h; rw [transfer_cons]
       refine ihr k init n0 h0 _ ?_
       -- the callee body, analysed from its own entry state
@@ -468,22 +476,28 @@ theorem execReal_inv {σ : FnId → List Nat} {tbl : FnId → Option (Nat × Pro
           split at hx
           · rename_i hk; exact ⟨hk, hx⟩
           · cases hx))
+      obtain ⟨hpfM, hpfR⟩ := hpf f kf rv body htbl
       have hnext : s.next ≤ t.next := hb.next_le
+      have harg : ∀ (p : Nat) (o : Obj), (args[p]?).bind s.env = some o →
+          ∃ v, args[p]? = some v ∧ s.env v = some o := by
+        intro p o hi
+        cases hv : args[p]? with
+        | none => rw [hv] at hi; cases hi
+        | some v => rw [hv] at hi; exact ⟨v, rfl, hi⟩
       have hheap : ∀ o, o < s.next → t.heap o ≠ s.heap o →
           ∃ i, i ∈ σ f ∧ ∃ v, args[i]? = some v ∧ s.env v = some o := by
         intro o ho hne
         obtain ⟨p, hp, hm, hi⟩ := hb.heap o ho hne
-        refine ⟨p, hpf f kf body htbl p ((mem_mayMutate σ kf body p).2 ⟨hp, hm⟩), ?_⟩
-        cases hv : args[p]? with
-        | none => rw [hv] at hi; cases hi
-        | some v => rw [hv] at hi; exact ⟨v, rfl, hi⟩
-      rcases hret with rfl | ⟨o, ho1, ho2, rfl⟩ | ⟨v, hv, rfl⟩
-      · exact h.call σ f args ret (Nat.le_succ_of_le hnext) hheap (some t.next) rfl
+        exact ⟨p, hpfM p ((mem_mayMutate σ ρ kf body p).2 ⟨hp, hm⟩), harg p o hi⟩
+      rcases hret with ⟨o, hrv, rfl⟩ | ⟨_, rfl⟩
+      · refine h.call σ ρ f args ret hnext hheap (some o) rfl (fun o' ho' => ?_)
+        cases ho'
+        by_cases hlt : o < s.next
+        · obtain ⟨p, hp, hm, hi⟩ := hb.pts rv o hrv hlt
+          exact Or.inr ⟨p, hpfR p ((mem_mayReturn σ ρ kf rv body p).2 ⟨hp, hm⟩), harg p o hi⟩
+        · exact Or.inl (Nat.le_of_not_lt hlt)
+      · exact h.call σ ρ f args ret (Nat.le_succ_of_le hnext) hheap (some t.next) rfl
           (fun o ho => by cases ho; exact Or.inl hnext)
-      · exact h.call σ f args ret hnext hheap (some o) rfl
-          (fun o' ho' => by cases ho'; exact Or.inl ho1)
-      · exact h.call σ f args ret hnext hheap (s.env v) rfl
-          (fun o ho => Or.inr ⟨v, hv, ho⟩)
   | branchL _ _ ih1 ih2 =>
       intro k init n0 h0 a h; rw [transfer_cons, transferI_branch]
       exact ih2 k init n0 h0 _ ((ih1 k init n0 h0 a h).mono (AState.le_join_left _ _))
@@ -495,7 +509,7 @@ theorem execReal_inv {σ : FnId → List Nat} {tbl : FnId → Option (Nat × Pro
       exact ih k init n0 h0 _ (h.loop_entry _)
   | @loopStep d p rest s s1 s' _ _ ih1 ih2 =>
       intro k init n0 h0 a h
-      have hA : Inv k init n0 h0 (transferI σ k (.loop p) a) s := h.loop_entry _
+      have hA : Inv k init n0 h0 (transferI σ ρ k (.loop p) a) s := h.loop_entry _
       rw [transferI_loop] at hA
       have hB := (ih1 k init n0 h0 _ hA).mono (AState.leb_sound (loopFix_stable _ _ _))
       have hC := ih2 k init n0 h0 _ hB
@@ -504,29 +518,29 @@ theorem execReal_inv {σ : FnId → List Nat} {tbl : FnId → Option (Nat × Pro
       exact hC
 
 /-- General form of theorem B. -/
-theorem mayMutate_sound_real_gen (σ : FnId → List Nat) (tbl : FnId → Option (Nat × Prog))
-    (hpf : PostFixpoint σ tbl) (d : Nat) (k : Nat) (init : Nat → Option Obj) (prog : Prog)
+theorem mayMutate_sound_real_gen (σ ρ : FnId → List Nat) (tbl : FnId → Option (Nat × Var × Prog))
+    (hpf : PostFixpoint σ ρ tbl) (d : Nat) (k : Nat) (init : Nat → Option Obj) (prog : Prog)
     (s₀ s₁ : State)
     (henv : ∀ x o, s₀.env x = some o → o < s₀.next → x < k ∧ init x = some o)
-    (hex : ExecReal σ tbl d prog s₀ s₁) (o : Obj) (ho : o < s₀.next)
-    (hclean : ∀ p, p < k → init p = some o → p ∉ mayMutate σ k prog) :
+    (hex : ExecReal σ ρ tbl d prog s₀ s₁) (o : Obj) (ho : o < s₀.next)
+    (hclean : ∀ p, p < k → init p = some o → p ∉ mayMutate σ ρ k prog) :
     s₁.heap o = s₀.heap o := by
   have hI := execReal_inv hpf hex k init s₀.next s₀.heap _ (Inv.entry k init s₀ henv)
   apply Classical.byContradiction
   intro hne
   obtain ⟨p, hp, hm, hi⟩ := hI.heap o ho hne
-  exact hclean p hp hi ((mem_mayMutate σ k prog p).2 ⟨hp, hm⟩)
+  exact hclean p hp hi ((mem_mayMutate σ ρ k prog p).2 ⟨hp, hm⟩)
 
 /-- **Theorem B.**  Same conclusion as theorem A for the semantics in which calls execute the
 callee's body from `tbl` (to any nesting depth `d`; summary semantics below that and for functions
-without a body), provided the summary table `σ` is a post-fixpoint for `tbl`. -/
-theorem mayMutate_sound_real (σ : FnId → List Nat) (tbl : FnId → Option (Nat × Prog))
-    (hpf : PostFixpoint σ tbl) (d : Nat) (k : Nat) (init : Fin k → Obj) (prog : Prog)
+without a body), provided the summary tables `(σ, ρ)` are a post-fixpoint for `tbl`. -/
+theorem mayMutate_sound_real (σ ρ : FnId → List Nat) (tbl : FnId → Option (Nat × Var × Prog))
+    (hpf : PostFixpoint σ ρ tbl) (d : Nat) (k : Nat) (init : Fin k → Obj) (prog : Prog)
     (s₀ s₁ : State) (henv : s₀.env = initEnv k init)
-    (hex : ExecReal σ tbl d prog s₀ s₁) (o : Obj) (ho : o < s₀.next)
-    (hclean : ∀ p : Fin k, init p = o → p.val ∉ mayMutate σ k prog) :
+    (hex : ExecReal σ ρ tbl d prog s₀ s₁) (o : Obj) (ho : o < s₀.next)
+    (hclean : ∀ p : Fin k, init p = o → p.val ∉ mayMutate σ ρ k prog) :
     s₁.heap o = s₀.heap o := by
-  refine mayMutate_sound_real_gen σ tbl hpf d k
+  refine mayMutate_sound_real_gen σ ρ tbl hpf d k
     (fun x => if h : x < k then some (init ⟨x, h⟩) else none) prog s₀ s₁ ?_ hex o ho ?_
   · intro x o' hx _
     rw [henv] at hx
@@ -536,42 +550,43 @@ theorem mayMutate_sound_real (σ : FnId → List Nat) (tbl : FnId → Option (Na
     simp only [hp, dite_true, Option.some.injEq] at hi
     exact hclean ⟨p, hp⟩ hi
 
-theorem clean_sound_real (σ : FnId → List Nat) (tbl : FnId → Option (Nat × Prog))
-    (hpf : PostFixpoint σ tbl) (d : Nat) (k : Nat) (init : Fin k → Obj) (prog : Prog)
+theorem clean_sound_real (σ ρ : FnId → List Nat) (tbl : FnId → Option (Nat × Var × Prog))
+    (hpf : PostFixpoint σ ρ tbl) (d : Nat) (k : Nat) (init : Fin k → Obj) (prog : Prog)
     (s₀ s₁ : State) (henv : s₀.env = initEnv k init)
-    (hex : ExecReal σ tbl d prog s₀ s₁) (hclean : mayMutate σ k prog = []) :
+    (hex : ExecReal σ ρ tbl d prog s₀ s₁) (hclean : mayMutate σ ρ k prog = []) :
     ∀ o, o < s₀.next → s₁.heap o = s₀.heap o := by
   intro o ho
-  exact mayMutate_sound_real σ tbl hpf d k init prog s₀ s₁ henv hex o ho
+  exact mayMutate_sound_real σ ρ tbl hpf d k init prog s₀ s₁ henv hex o ho
     (fun p _ => by simp [hclean])
 
 /-- entries of the table function come from the list -/
-theorem tblOf_mem {table : List (FnId × Nat × Prog)} {f : FnId} {k : Nat} {body : Prog}
-    (h : tblOf table f = some (k, body)) : (f, k, body) ∈ table := by
+theorem tblOf_mem {table : List (FnId × Nat × Var × Prog)} {f : FnId} {k : Nat} {rv : Var}
+    {body : Prog} (h : tblOf table f = some (k, rv, body)) : (f, k, rv, body) ∈ table := by
   induction table with
   | nil => simp [tblOf] at h
   | cons e t ih =>
-      obtain ⟨g, kg, bg⟩ := e
+      obtain ⟨g, kg, rg, bg⟩ := e
       simp only [tblOf] at h
       split at h
       · rename_i hg
         simp only [Option.some.injEq, Prod.mk.injEq] at h
-        obtain ⟨h1, h2⟩ := h
-        subst hg h1 h2
+        obtain ⟨h1, h2, h3⟩ := h
+        subst hg h1 h2 h3
         exact List.mem_cons_self
       · exact List.mem_cons_of_mem _ (ih h)
 
 /-- The Boolean checker establishes the post-fixpoint property used by theorem B. -/
-theorem isPostFixpoint_sound (σ : FnId → List Nat) (table : List (FnId × Nat × Prog))
-    (h : isPostFixpoint σ table = true) : PostFixpoint σ (tblOf table) := by
-  intro f k body hf p hp
-  simp only [isPostFixpoint, List.all_eq_true, List.contains_iff_mem] at h
-  exact h (f, k, body) (tblOf_mem hf) p hp
+theorem isPostFixpoint_sound (σ ρ : FnId → List Nat) (table : List (FnId × Nat × Var × Prog))
+    (h : isPostFixpoint σ ρ table = true) : PostFixpoint σ ρ (tblOf table) := by
+  intro f k rv body hf
+  simp only [isPostFixpoint, List.all_eq_true, Bool.and_eq_true, List.contains_iff_mem] at h
+  have := h (f, k, rv, body) (tblOf_mem hf)
+  exact ⟨fun p hp => this.1 p hp, fun p hp => this.2 p hp⟩
 
 /-- Every summary-semantics run is a real-semantics run at any depth with the empty table
 (so theorem A is also the instance `tbl = fun _ => none` of theorem B). -/
-theorem Exec.toReal {σ : FnId → List Nat} {prog : Prog} {s s' : State} (d : Nat)
-    (h : Exec σ prog s s') : ExecReal σ (fun _ => none) d prog s s' := by
+theorem Exec.toReal {σ ρ : FnId → List Nat} {prog : Prog} {s s' : State} (d : Nat)
+    (h : Exec σ ρ prog s s') : ExecReal σ ρ (fun _ => none) d prog s s' := by
   induction h with
   | nil s => exact .nil d s
   | step hs _ ih => exact .step (fun _ _ _ _ => Or.inr rfl) hs ih
@@ -586,50 +601,96 @@ section Examples
 
 /-- function `7` may modify its argument at position `1` -/
 private def σ₀ : FnId → List Nat := sigmaOf [(7, [1])]
+/-- the result of function `7` may be its argument at position `0` -/
+private def ρ₀ : FnId → List Nat := sigmaOf [(7, [0])]
 
 -- writing through an alias of parameter 0
-example : mayMutate σ₀ 2 [.alias 2 0, .inplace 2] = [0] := by decide
+example : mayMutate σ₀ ρ₀ 2 [.alias 2 0, .inplace 2] = [0] := by decide
 -- writing to a fresh object
-example : mayMutate σ₀ 2 [.fresh 2, .inplace 2] = [] := by decide
+example : mayMutate σ₀ ρ₀ 2 [.fresh 2, .inplace 2] = [] := by decide
 -- rebinding a parameter kills the alias
-example : mayMutate σ₀ 2 [.fresh 0, .inplace 0] = [] := by decide
+example : mayMutate σ₀ ρ₀ 2 [.fresh 0, .inplace 0] = [] := by decide
 -- branch union
-example : mayMutate σ₀ 2 [.branch [.alias 2 0] [.alias 2 1], .inplace 2] = [0, 1] := by decide
-example : mayMutate σ₀ 3 [.branch [.inplace 2] [.fresh 3], .inplace 3] = [2] := by decide
+example : mayMutate σ₀ ρ₀ 2 [.branch [.alias 2 0] [.alias 2 1], .inplace 2] = [0, 1] := by decide
+example : mayMutate σ₀ ρ₀ 3 [.branch [.inplace 2] [.fresh 3], .inplace 3] = [2] := by decide
 -- join is a weak update
-example : mayMutate σ₀ 2 [.fresh 2, .join 2 1, .inplace 2] = [1] := by decide
+example : mayMutate σ₀ ρ₀ 2 [.fresh 2, .join 2 1, .inplace 2] = [1] := by decide
 -- the loop needs two rounds to propagate the alias 0 → 2 → 3
-example : mayMutate σ₀ 2 [.loop [.alias 3 2, .alias 2 0], .inplace 3] = [0] := by decide
+example : mayMutate σ₀ ρ₀ 2 [.loop [.alias 3 2, .alias 2 0], .inplace 3] = [0] := by decide
 -- a longer chain still stabilises within the fuel (no spurious top)
-example : mayMutate σ₀ 2
+example : mayMutate σ₀ ρ₀ 2
     [.loop [.alias 6 5, .alias 5 4, .alias 4 3, .alias 3 2, .alias 2 1], .inplace 6] = [1] := by
   decide
 -- call: position 1 of function 7 is mutated, here bound to parameter 0
-example : mayMutate σ₀ 2 [.call 7 [1, 0] 5] = [0] := by decide
-example : mayMutate σ₀ 2 [.alias 3 1, .call 7 [0, 3] 5] = [1] := by decide
--- the returned object may be any argument
-example : mayMutate σ₀ 2 [.fresh 2, .call 7 [0, 2] 5, .inplace 5] = [0] := by decide
--- unknown function (σ f = []) mutates nothing
-example : mayMutate σ₀ 2 [.call 9 [0, 1] 5] = [] := by decide
--- post-fixpoint checker
-example : isPostFixpoint σ₀ [(7, 2, [.inplace 1]), (8, 1, [.call 7 [0, 0] 1])] = false := by decide
-example : isPostFixpoint (sigmaOf [(7, [1]), (8, [0])])
-    [(7, 2, [.inplace 1]), (8, 1, [.call 7 [0, 0] 1])] = true := by decide
--- recursion: function 3 calls itself
-example : isPostFixpoint (sigmaOf [(3, [0])])
-    [(3, 2, [.branch [.inplace 0] [.call 3 [0, 1] 2]])] = true := by decide
+example : mayMutate σ₀ ρ₀ 2 [.call 7 [1, 0] 5] = [0] := by decide
+example : mayMutate σ₀ ρ₀ 2 [.alias 3 1, .call 7 [0, 3] 5] = [1] := by decide
+-- the returned object may be the argument at a position in `ρ f` (here position 0) ...
+example : mayMutate σ₀ ρ₀ 2 [.fresh 2, .call 7 [0, 2] 5, .inplace 5] = [0] := by decide
+-- ... but not any other argument
+example : mayMutate σ₀ ρ₀ 2 [.fresh 2, .call 7 [2, 2, 0] 5, .inplace 5] = [] := by decide
+-- unknown function (σ f = ρ f = []): mutates nothing, returns a fresh object
+example : mayMutate σ₀ ρ₀ 2 [.call 9 [0, 1] 5, .inplace 5] = [] := by decide
+
+-- return values: `rv = 5`, every `return e` is `.join rv e`
+-- returning a fresh object
+example : mayReturn σ₀ ρ₀ 2 5 [.fresh 3, .join 5 3] = [] := by decide
+-- returning parameter 0
+example : mayReturn σ₀ ρ₀ 2 5 [.alias 5 0] = [0] := by decide
+example : mayReturn σ₀ ρ₀ 2 5 [.branch [.fresh 3, .join 5 3] [.join 5 1]] = [1] := by decide
+-- returning the result of a call that may return its argument 0
+example : mayReturn σ₀ ρ₀ 2 5 [.call 7 [1, 0] 3, .join 5 3] = [1] := by decide
+-- no `return` at all: `rv` stays unbound
+example : mayReturn σ₀ ρ₀ 2 5 [.inplace 0] = [] := by decide
+
+-- post-fixpoint checker: entries are `(id, arity, return variable, body)`
+-- function 10 returns a copy of its argument, function 11 returns its argument itself,
+-- function 12 mutates the result of 10 (harmless), function 13 mutates the result of 11
+private def tbl₀ : List (FnId × Nat × Var × Prog) :=
+  [(10, 1, 5, [.fresh 2, .join 5 2]),
+   (11, 1, 5, [.alias 5 0]),
+   (12, 1, 5, [.call 10 [0] 2, .inplace 2]),
+   (13, 1, 5, [.call 11 [0] 2, .inplace 2])]
+example : isPostFixpoint (sigmaOf [(13, [0])]) (sigmaOf [(11, [0])]) tbl₀ = true := by decide
+-- `ρ 11` too small: the alias returned by 11 is missed
+example : isPostFixpoint (sigmaOf [(13, [0])]) (sigmaOf []) tbl₀ = false := by decide
+-- `σ 13` too small
+example : isPostFixpoint (sigmaOf []) (sigmaOf [(11, [0])]) tbl₀ = false := by decide
+-- with these summaries the caller of 12 is clean and the caller of 13 is flagged
+example : mayMutate (sigmaOf [(13, [0])]) (sigmaOf [(11, [0])]) 1 [.call 12 [0] 1] = [] := by
+  decide
+example : mayMutate (sigmaOf [(13, [0])]) (sigmaOf [(11, [0])]) 1 [.call 13 [0] 1] = [0] := by
+  decide
+-- mutating the result of a fresh-returning function does not flag the caller's parameter,
+-- mutating the result of an argument-returning function does
+example : mayMutate (sigmaOf []) (sigmaOf [(11, [0])]) 1 [.call 10 [0] 2, .inplace 2] = [] := by
+  decide
+example : mayMutate (sigmaOf []) (sigmaOf [(11, [0])]) 1 [.call 11 [0] 2, .inplace 2] = [0] := by
+  decide
+-- recursion: function 3 calls itself and returns either its argument 1 or the recursive result
+example : isPostFixpoint (sigmaOf [(3, [0])]) (sigmaOf [(3, [1])])
+    [(3, 2, 9, [.branch [.inplace 0, .join 9 1] [.call 3 [0, 1] 2, .join 9 2]])] = true := by decide
 
 -- the concrete semantics is not vacuous: writing through an alias of parameter 0 can give its
 -- object arbitrary new contents
-example (σ : FnId → List Nat) (s : State) (o : Obj) (h : s.env 0 = some o) :
-    Exec σ [.alias 2 0, .inplace 2] s ⟨upd s.env 2 (s.env 0), upd s.heap o 42, s.next⟩ :=
+example (σ ρ : FnId → List Nat) (s : State) (o : Obj) (h : s.env 0 = some o) :
+    Exec σ ρ [.alias 2 0, .inplace 2] s ⟨upd s.env 2 (s.env 0), upd s.heap o 42, s.next⟩ :=
   .step (.alias 2 0 s) (.step (.inplace 2 _ o 42 (by simp [upd, h])) (.nil _))
 -- and a loop can run its body twice
-example (σ : FnId → List Nat) (s : State) :
-    Exec σ [.loop [.fresh 1]] s ⟨upd (upd s.env 1 (some s.next)) 1 (some (s.next + 1)), s.heap,
+example (σ ρ : FnId → List Nat) (s : State) :
+    Exec σ ρ [.loop [.fresh 1]] s ⟨upd (upd s.env 1 (some s.next)) 1 (some (s.next + 1)), s.heap,
       s.next + 1 + 1⟩ :=
   .loopStep (.step (.fresh 1 s) (.nil _))
     (.loopStep (.step (.fresh 1 _) (.nil _)) (.loopDone (.nil _)))
+
+-- the real semantics is not vacuous either: function 11 (`return x`) hands its argument back and
+-- the caller then modifies parameter 0's object through the result
+example (σ ρ : FnId → List Nat) (s : State) (o : Obj) (h : s.env 0 = some o) :
+    ExecReal σ ρ (tblOf [(11, 1, 5, [.alias 5 0])]) 1 [.call 11 [0] 2, .inplace 2] s
+      ⟨upd s.env 2 (some o), upd s.heap o 42, s.next⟩ :=
+  .callReal (k := 1) (rv := 5) (body := [.alias 5 0]) rfl
+    (.step (fun _ _ _ hc => by cases hc) (.alias 5 0 _) (.nil _ _))
+    (Or.inl ⟨o, by simp [upd, paramEnv, h], rfl⟩)
+    (.step (fun _ _ _ hc => by cases hc) (.inplace 2 _ o 42 (by simp [upd])) (.nil _ _))
 
 end Examples
 
